@@ -401,6 +401,15 @@ def run(ctx):
                 key = json.dumps(tr, sort_keys=True)
                 if key not in traces:
                     traces[key] = (tr, {"script": list(script), "size": size, "min": mn, "schedule": list(ch.names)})
+    # a submission followed at once by the close, two switch points: the worker can be stopped right after it has looked at its job
+    # slot, the close can run to its end in between, and only then the worker goes on
+    for script in (("submit", "close"), ("submit", "release", "submit", "close")):
+        for (size, mn) in ((1, 1), (2, 1)):
+            def once_sc(ch, script=script, size=size, mn=mn):
+                return run_once(T, config, ch, script, size, mn, eager=True)
+            for ch, tr in S.explore(once_sc, max_preemptions=2, limit=ctx.pick(150, 1500), rng=rng, random_runs=0):
+                runs += 1
+                keep(tr, {"script": list(script), "size": size, "min": mn, "schedule": list(ch.names), "eager": True, "raising": False})
     # grow / shrink / grow again: the pool must scale up a second time after its surplus workers have retired
     for (size, mn) in ((2, 1), (3, 1), (3, 2), (2, 2)):
         for rounds in (2, 3) if size == 2 else (2,):
